@@ -16,7 +16,7 @@ open Hex Hex.X Hex.Xcmp Hex.IAm Hex.Asm
 /-- Operators over literals, names and calls of procedures `ps` outside `imp`, with call-free
     actuals. -/
 def ppE (ps imp : List String) : X.Expr → Bool
-  | .num _ | .bool _ | .name _ => true
+  | .num _ | .bool _ | .name _ | .str _ => true
   | .un _ e => ppE ps imp e
   | .bin _ l r => ppE ps imp l && ppE ps imp r
   | .call g args => ps.contains g && !imp.contains g && args.all pureE
@@ -32,7 +32,7 @@ theorem pure_pp (ps imp : List String) : (e : X.Expr) → pureE e = true → ppE
     simp only [pureE, Bool.and_eq_true] at h
     simp only [ppE, Bool.and_eq_true]
     exact ⟨pure_pp ps imp l h.1, pure_pp ps imp r h.2⟩
-  | .str _, h => by simp [pureE] at h
+  | .str _, _ => rfl
   | .sub _ i, h => by simp only [pureE] at h; simp only [ppE]; exact h
   | .call _ _, h => by simp [pureE] at h
   | .syscall _ _, h => by simp [pureE] at h
@@ -60,7 +60,7 @@ theorem annot_const_pure (ρ : String → Option Word) (ps imp : List String) :
       | some cr =>
         simp only [pureE, Bool.and_eq_true]
         exact ⟨annot_const_pure ρ ps imp l cl hp.1 hl, annot_const_pure ρ ps imp r cr hp.2 hr⟩
-  | .str _, _, hp, _ => by simp [ppE] at hp
+  | .str _, _, _, _ => rfl
   | .sub _ _, _, _, hc => by simp [annotate] at hc
   | .call _ _, _, _, hc => by simp [annotate] at hc
   | .syscall _ _, _, hp, _ => by simp [ppE] at hp
@@ -76,6 +76,7 @@ theorem pp_simple_pure (ρ : String → Option Word) (ps imp : List String) (e :
   · cases e <;> simp [annotate] at hn
     rfl
   · cases e <;> simp [annotate, ppE] at hb hp
+    rfl
   · exact pp_const_pure ρ ps imp e c hp hc
 
 /-! ### `Sim` and the representation -/
@@ -89,13 +90,25 @@ theorem Rep.sim {K : PCtx} {σ σ' : X.St} {mem : Mem} (h : Rep K σ mem) (hs : 
    fun n hv => h.locs n (by unfold IsVar at hv ⊢; rw [hs.2.2.1]; exact hv), h.above,
    fun n hn => by rw [← hs.2.2.1]; exact h.gvis n hn, by rw [← hs.2.2.2.2]; exact h.depth,
    fun n r hr => h.aptr n r (by rw [readName_sim K.xc n σ σ' hs]; exact hr),
-   fun id cells hc => h.acells id cells (by rw [hs.2.1]; exact hc)⟩
+   fun id cells hc => h.acells id cells (by rw [hs.2.1]; exact hc), h.strs⟩
 
 theorem ExecAt.sim {t : Bool} {K : PCtx} {e' : AExpr} {v : Word} {σ σ' : X.St} (h : ExecAt t K e' v σ) (hs : Sim σ σ') :
     ExecAt t K e' v σ' := by
   intro gs code gs' i a b mem hg hat hr hsz hnl hci
   obtain ⟨b', mem', st, rep, frm⟩ := h gs code gs' i a b mem hg hat (hr.sim hs.symm) hsz hnl hci
   exact ⟨b', mem', by rw [← hs.2.2.2.1]; exact st, rep.sim hs, frm⟩
+
+theorem ExecT.sim_right {t : Bool} {K : PCtx} {e' : AExpr} {v : Word} {σ σ' σ2 : X.St} (h : ExecT t K e' v σ σ')
+    (hs : Sim σ' σ2) : ExecT t K e' v σ σ2 := by
+  intro gs code gs' i a b mem hg hat hr hsz hnl hci
+  obtain ⟨b', mem', st, rep, frm⟩ := h gs code gs' i a b mem hg hat hr hsz hnl hci
+  exact ⟨b', mem', by rw [← hs.2.2.2.1]; exact st, rep.sim hs, frm⟩
+
+theorem ExecP.sim {t : Bool} {K : PCtx} {e' : AExpr} {P : Word → Prop} {σ σ' : X.St} (h : ExecP t K e' P σ) (hs : Sim σ σ') :
+    ExecP t K e' P σ' := by
+  intro gs code gs' i a b mem hg hat hr hsz hnl hci
+  obtain ⟨v, b', mem', hP, st, rep, frm⟩ := h gs code gs' i a b mem hg hat (hr.sim hs.symm) hsz hnl hci
+  exact ⟨v, b', mem', hP, by rw [← hs.2.2.2.1]; exact st, rep.sim hs, frm⟩
 
 theorem ExecB.sim {K : PCtx} {e' : AExpr} {v : Word} {σ σ' : X.St} (h : ExecB K e' v σ) (hs : Sim σ σ') :
     ExecB K e' v σ' := by
@@ -124,7 +137,7 @@ theorem impE_pure (imp : String → Bool) : (e : X.Expr) → pureE e = true → 
     simp only [pureE, Bool.and_eq_true] at h
     simp only [X.impE, Bool.or_eq_false_iff]
     exact ⟨impE_pure imp l h.1, impE_pure imp r h.2⟩
-  | .str _, h => by simp [pureE] at h
+  | .str _, _ => by simp [X.impE]
   | .sub _ i, h => by simp only [pureE] at h; simp only [X.impE]; exact impE_pure imp i h
   | .call _ _, h => by simp [pureE] at h
   | .syscall _ _, h => by simp [pureE] at h
@@ -151,7 +164,7 @@ theorem pp_imp (L : List String) (hL : ∀ g, ps.contains g = true → L.contain
     simp only [ppE, Bool.and_eq_true] at h
     simp only [X.impE, Bool.or_eq_false_iff]
     exact ⟨pp_imp L hL l h.1, pp_imp L hL r h.2⟩
-  | .str _, h => by simp [ppE] at h
+  | .str _, _ => by simp [X.impE]
   | .sub _ i, h => by simp only [ppE] at h; simp only [X.impE]; exact impE_pure _ i h
   | .syscall _ _, h => by simp [ppE] at h
   | .call g args, h => by
@@ -241,7 +254,7 @@ theorem expr_pp_correct (K : PCtx) (wf : K.WF) (ps : List String) (pk : PureOk K
     | num x => exact absurd rfl hp
     | bool b => exact absurd rfl hp
     | name n => exact absurd rfl hp
-    | str bs => simp [ppE] at hpp
+    | str bs => exact absurd rfl hp
     | sub n i => simp only [ppE] at hpp; exact absurd (by simpa [pureE] using hpp) hp
     | syscall id args => simp [ppE] at hpp
     | call g args =>
